@@ -57,6 +57,8 @@ type smcWorld struct {
 	conn     diam.Conn
 	enters   []int // markers seen by the application handler
 	enterLocal []string // local address of the connection each of them arrived on
+	parkSeq  int           // the application handler parks on the message with this marker (0 = never)
+	gate     chan struct{} // the parked handler
 	metaOK   []bool
 
 	seenWrites int
@@ -111,7 +113,16 @@ func newSmcWorld(e *Env, wd bool) *smcWorld {
 		w.enters = append(w.enters, seq)
 		w.metaOK = append(w.metaOK, ok)
 		w.enterLocal = append(w.enterLocal, local)
+		var gate chan struct{}
+		if w.parkSeq != 0 && seq == w.parkSeq {
+			gate = make(chan struct{})
+			w.gate = gate
+			e.ParkBegin(true)
+		}
 		w.mu.Unlock()
+		if gate != nil {
+			<-gate // the application's handler blocks until the engine lets it go
+		}
 	})
 	w.R = t.Range(0, 4)
 	w.I = []time.Duration{time.Second, 10 * time.Millisecond, 3 * time.Second}[t.Draw(3)]
@@ -1505,6 +1516,116 @@ func c10ClientTwo(e *Env) {
 			break
 		}
 		w2.advance(w.I)
+	}
+	w2.teardown()
+	w.teardown()
+}
+
+// c08ClientTwo: one Client with the watchdog enabled holds two established connections. An
+// application handler blocks on the first for longer than the watchdog needs to start
+// retransmitting there; messages arriving on the second connection must be dispatched all the same.
+func c08ClientTwo(e *Env) {
+	t := e.T
+	e.TrustWait = false // a handler is held parked while the clock moves
+	w := newSmcWorld(e, true)
+	e.NonTrivial()
+	if !smcHandshake(w, hsScript{answerCER: 1, ceaKind: "success", delayClass: "quick"}) {
+		w.teardown()
+		return
+	}
+	w2 := w.redial()
+	local2 := w2.sc.LocalAddr().String()
+	parked := false
+	stuck := false
+	// pump lets d of fake time pass, answering the watchdog requests of both connections
+	pump := func(d time.Duration, until func() bool) {
+		deadline := time.Now().Add(d)
+		for !e.Failed() && !stuck {
+			if !e.Quiesce() {
+				stuck = true
+				return
+			}
+			for _, x := range []*smcWorld{w, w2} {
+				for _, o := range x.collect() {
+					switch {
+					case o.msg.Cmd == cmdDW && o.msg.Flags&0x80 != 0 && !(x == w && parked):
+						x.sc.Deliver(serverDWA(o.msg, 2001).Bytes())
+					case o.msg.Cmd == cmdCE && o.msg.Flags&0x80 != 0 && x == w2:
+						x.sc.Deliver(serverCEA(o.msg, "success").Bytes())
+					}
+				}
+			}
+			if !e.Quiesce() {
+				stuck = true
+				return
+			}
+			if (until != nil && until()) || !time.Now().Before(deadline) {
+				return
+			}
+			e.Advance(time.Until(deadline)) // returns at the next library write
+		}
+	}
+	w2.dial()
+	pump(time.Duration(w.R+2)*w.I, func() bool { w2.mu.Lock(); defer w2.mu.Unlock(); return w2.dialDone })
+	w2.mu.Lock()
+	ok2 := w2.dialDone && w2.dialErr == nil
+	w2.mu.Unlock()
+	if e.Failed() || stuck || !ok2 {
+		if !e.Failed() && !ok2 {
+			e.Fail("C12/second-dial-failed", "the Client's second dial got a success CEA in reply to its CER and did not return a connection")
+		}
+		w2.teardown()
+		w.teardown()
+		return
+	}
+	// the application handler of connection 1 blocks
+	w.mu.Lock()
+	w.parkSeq = 700
+	w.mu.Unlock()
+	w.sc.Deliver(appAnswer(700).Bytes())
+	e.Quiesce()
+	w.mu.Lock()
+	parked = w.gate != nil
+	w.mu.Unlock()
+	if !parked {
+		e.Fail("C10/handler-not-invoked", "connection 1 is established; an application answer arriving on it ran no handler")
+	}
+	e.Act("handler-parked-on-first-connection", "")
+	// ... for longer than the watchdog interval plus a retransmit interval or two
+	pump(w.W+time.Duration(1+t.Draw(2))*w.I+w.I/2, nil)
+	entersOn2 := func() int {
+		w.mu.Lock()
+		defer w.mu.Unlock()
+		n := 0
+		for _, l := range w.enterLocal {
+			if l == local2 {
+				n++
+			}
+		}
+		return n
+	}
+	if !e.Failed() && !stuck {
+		before := entersOn2()
+		w2.sc.Deliver(appAnswer(701).Bytes())
+		e.Quiesce()
+		if w2.sc.Closed() {
+			e.Fail("C13/responsive-peer-closed", "connection 2's peer answered every DWR and the client closed the connection")
+		} else if entersOn2() != before+1 {
+			e.Fail("C08/other-connection-delayed/client", "an application handler blocks on connection 1 of a Client; an answer arriving on its connection 2 %v later was not dispatched", w.W+w.I)
+		}
+		e.Probe("second-connection-served-while-first-handler-blocked")
+	}
+	if stuck && !e.Failed() {
+		e.Fail("C08/other-connection-delayed/lock-wait", "with an application handler blocked on connection 1 a library goroutine came to wait on a lock (fake time cannot advance): nothing is dispatched on any connection of the Client")
+	}
+	w.mu.Lock()
+	g := w.gate
+	w.gate, w.parkSeq = nil, 0
+	w.mu.Unlock()
+	if g != nil {
+		e.ParkEnd(true)
+		close(g)
+		e.Quiesce()
 	}
 	w2.teardown()
 	w.teardown()
